@@ -192,7 +192,7 @@ def run(ctx):
         runs_dir = os.path.join(ctx.scratch, "runs")
         os.makedirs(runs_dir)
         rep = ctx.go_test("./ocache", run="TestRecord$", race=True, timeout=1500,
-                          env={"VERIF_TRACE_OUT": trace, "VERIF_RUNS_DIR": runs_dir, "VERIF_RUNS": os.environ.get("C16_RUNS") or (60 if thorough else 12)})
+                          env={"VERIF_TRACE_OUT": trace, "VERIF_RUNS_DIR": runs_dir, "VERIF_RUNS": os.environ.get("C16_RUNS") or (40 if thorough else 12)})
         ctx.cov["trace_events_validated"] = rep["extra"].get("trace_events", 0)
         ctx.cov["recorded_operations"] = rep["extra"].get("recorded_operations", 0)
         validate_trace(ctx, trace, runs_dir)
